@@ -36,6 +36,8 @@ def writer_cfg(rng=None, comp="none", level="default", bs=1024, ri=2, pool=-1, p
 
 
 def rand_cfg(rng):
+    if rng.random() < 0.06:         # NULL options argument: every writer parameter at its default
+        return {"comp": "nullopt", "level": "default", "bs": "default", "ri": "default", "pool": -1, "prefix": rng.choice([0, 0, 513])}
     comp = rng.choice(COMPS)
     level = rng.choice(["default", "default", "-5", "0", "1", "5", "9", "99"])
     return {"comp": comp, "level": level, "bs": rng.choice([1, 1024, 1024, 2048, 8192]),
